@@ -106,6 +106,64 @@ func legacyAlphabet(ext string) []version {
 	}
 }
 
+// contentAlphabet: one file, two valid versions and every KIND of content that is not a namespace document of
+// the format (each invalid by the format's own grammar or by the document type, not by keto's taste): garbage,
+// a document cut off in the middle, a complete document followed by left-over bytes (what a shorter in-place
+// write leaves behind), a well-formed value of the wrong type, a field of the wrong type.
+func contentAlphabet(ext string) []version {
+	f1 := "/d/f1" + ext
+	var v1, v2 string
+	var bads [][2]string
+	switch ext {
+	case ".json":
+		v1, v2 = `{"id": 1, "name": "A"}`, `{"id": 2, "name": "A2"}`
+		bads = [][2]string{
+			{"cut-off", `{"id": 1, "na`},
+			{"trailing-bytes", `{"id": 0, "name": "docs"}nts-archive"}`},
+			{"trailing-document", `{"id": 1, "name": "A"} {"id": 2, "name": "B"}`},
+			{"wrong-value-type", `"A"`},
+			{"wrong-field-type", `{"id": "one", "name": "A"}`},
+		}
+	case ".yaml":
+		v1, v2 = "id: 1\nname: A\n", "id: 2\nname: A2\n"
+		bads = [][2]string{
+			{"cut-off", "id: 1\nname: [A"},
+			{"trailing-bytes", "id: 1\nname: A\n}}}\n"},
+			{"wrong-field-type", "id: [1, 2]\nname: A\n"},
+		}
+	case ".toml":
+		v1, v2 = "id = 1\nname = \"A\"\n", "id = 2\nname = \"A2\"\n"
+		bads = [][2]string{
+			{"cut-off", "id = 1\nname = \"A"},
+			{"trailing-bytes", "id = 1\nname = \"A\"\n]]]\n"},
+			{"duplicate-key", "id = 1\nname = \"A\"\nid = 2\n"},
+			{"wrong-field-type", "id = \"one\"\nname = \"A\"\n"},
+		}
+	case ".ts":
+		v1, v2 = oplDoc("A"), oplDoc("A2")
+		bads = [][2]string{
+			{"cut-off", "class A implements Namespace { related: { x: A"},
+			{"unterminated-comment", oplDoc("A") + " /* "},
+			{"unterminated-string", oplDoc("A") + " class \"B"},
+			{"undeclared-type", "class A implements Namespace { related: { x: Nope[] } }"},
+		}
+	}
+	nsOf := func(n string) []string { return []string{n} }
+	out := []version{
+		{name: "f1=V1", file: f1, data: v1, valid: true, ns: nsOf("A")},
+		{name: "f1=V2", file: f1, data: v2, valid: true, ns: nsOf("A2")},
+	}
+	for _, b := range bads {
+		out = append(out, version{name: "f1=BAD-" + b[0], file: f1, data: b[1]})
+	}
+	if ext == ".ts" {
+		// keto's OPL grammar skips every top-level token outside a class declaration (that is how import and
+		// export lines are tolerated), so left-over bytes after the last class are part of a VALID document
+		out = append(out, version{name: "f1=V1+stray-tokens", file: f1, data: oplDoc("A") + " }}}", valid: true, ns: nsOf("A")})
+	}
+	return out
+}
+
 type sample struct {
 	names  []string
 	issued int // number of events whose dispatch had begun when the sample was taken
@@ -384,12 +442,18 @@ func TestC19(t *testing.T) {
 		opl   bool
 		mk    func(*logrusx.Logger) config.VerifHandler
 		alpha []version
+		maxLen, bound int // 0 = the defaults above
 	}
 	fams := []family{
-		{"opl-directory", true, func(l *logrusx.Logger) config.VerifHandler { return config.VerifNewOPLWatcher(l, "file:///d") }, oplAlphabet()},
-		{"legacy-json", false, func(l *logrusx.Logger) config.VerifHandler { return config.VerifNewNamespaceWatcher(l, "file:///d") }, legacyAlphabet(".json")},
-		{"legacy-yaml", false, func(l *logrusx.Logger) config.VerifHandler { return config.VerifNewNamespaceWatcher(l, "file:///d") }, legacyAlphabet(".yaml")},
-		{"legacy-toml", false, func(l *logrusx.Logger) config.VerifHandler { return config.VerifNewNamespaceWatcher(l, "file:///d") }, legacyAlphabet(".toml")},
+		{"opl-directory", true, func(l *logrusx.Logger) config.VerifHandler { return config.VerifNewOPLWatcher(l, "file:///d") }, oplAlphabet(), 0, 0},
+		{"legacy-json", false, func(l *logrusx.Logger) config.VerifHandler { return config.VerifNewNamespaceWatcher(l, "file:///d") }, legacyAlphabet(".json"), 0, 0},
+		{"legacy-yaml", false, func(l *logrusx.Logger) config.VerifHandler { return config.VerifNewNamespaceWatcher(l, "file:///d") }, legacyAlphabet(".yaml"), 0, 0},
+		{"legacy-toml", false, func(l *logrusx.Logger) config.VerifHandler { return config.VerifNewNamespaceWatcher(l, "file:///d") }, legacyAlphabet(".toml"), 0, 0},
+		// kinds of invalid content, one file, histories of length <= 3, one deviation
+		{"opl-contents", true, func(l *logrusx.Logger) config.VerifHandler { return config.VerifNewOPLWatcher(l, "file:///d") }, contentAlphabet(".ts"), 3, 1},
+		{"legacy-json-contents", false, func(l *logrusx.Logger) config.VerifHandler { return config.VerifNewNamespaceWatcher(l, "file:///d") }, contentAlphabet(".json"), 3, 1},
+		{"legacy-yaml-contents", false, func(l *logrusx.Logger) config.VerifHandler { return config.VerifNewNamespaceWatcher(l, "file:///d") }, contentAlphabet(".yaml"), 3, 1},
+		{"legacy-toml-contents", false, func(l *logrusx.Logger) config.VerifHandler { return config.VerifNewNamespaceWatcher(l, "file:///d") }, contentAlphabet(".toml"), 3, 1},
 	}
 	var cov struct {
 		histories, execs, trans, states, samples int
@@ -401,11 +465,15 @@ func TestC19(t *testing.T) {
 		// all histories of length 1..maxLen
 		var hists [][]version
 		var rec func(cur []version)
+		fmaxLen, fbound := maxLen, bound
+		if fam.maxLen > 0 {
+			fmaxLen, fbound = fam.maxLen, fam.bound
+		}
 		rec = func(cur []version) {
 			if len(cur) > 0 {
 				hists = append(hists, append([]version(nil), cur...))
 			}
-			if len(cur) == maxLen {
+			if len(cur) == fmaxLen {
 				return
 			}
 			for _, v := range fam.alpha {
@@ -429,7 +497,7 @@ func TestC19(t *testing.T) {
 					continue // ShouldReload of the legacy watcher takes no lock
 				}
 				var last outcome
-				e := &vsched.Explore{Bound: bound, Count: true, Deadline: deadline}
+				e := &vsched.Explore{Bound: fbound, Count: true, Deadline: deadline}
 				e.Run(func(vc vsched.Config) *vsched.Execution {
 					last = runHistory(fam.mk, l, hist, vc, reload)
 					return last.x
